@@ -455,6 +455,23 @@ fn construct_inner<K: SimKernel<D>, const D: usize>(op: &Op) -> Built<K, D> {
                     Ok(dt) => Built { dt: Some(dt), out: Outcome::new(OutKind::Ok, "built", String::new()), stats: None },
                     Err(e) => Built { dt: None, out: Outcome::new(OutKind::Err, &variant_of(&format!("{e:?}")), trunc(e.to_string())), stats: None },
                 },
+                c if c.starts_with("toroidal") => {
+                    let Some((mode, hex)) = c.split_once(':') else {
+                        return Built { dt: None, out: Outcome::unresolved("periods"), stats: None };
+                    };
+                    let per: Vec<f64> = hex.split(',').filter_map(|h| u64::from_str_radix(h, 16).ok()).map(f64::from_bits).collect();
+                    let Ok(domain) = <[f64; D]>::try_from(per) else {
+                        return Built { dt: None, out: Outcome::unresolved("periods"), stats: None };
+                    };
+                    let b = delaunay::core::builder::DelaunayTriangulationBuilder::from_vertices(&vs)
+                        .topology_guarantee(tgv)
+                        .construction_options(opts_from(opts));
+                    let b = if mode == "toroidal_periodic" { b.toroidal_periodic(domain) } else { b.toroidal(domain) };
+                    match b.build_with_kernel::<K, V>(&kernel) {
+                        Ok(dt) => Built { dt: Some(dt), out: Outcome::new(OutKind::Ok, "built", String::new()), stats: None },
+                        Err(e) => Built { dt: None, out: Outcome::new(OutKind::Err, &variant_of(&format!("{e:?}")), trunc(e.to_string())), stats: None },
+                    }
+                }
                 "guarantee" => match Dt::<K, D>::with_topology_guarantee(&kernel, &vs, tgv) {
                     Ok(dt) => Built { dt: Some(dt), out: Outcome::new(OutKind::Ok, "built", String::new()), stats: None },
                     Err(e) => Built { dt: None, out: Outcome::new(OutKind::Err, &variant_of(&format!("{e:?}")), trunc(e.to_string())), stats: None },
